@@ -357,7 +357,10 @@ func runC06(c *rt.Ctx) {
 	// over one pooled connection; the bytes are looked at only after both have been served
 	for _, ps := range []int{1, 2} {
 		for _, bs := range []int{1, 2} {
-			for _, sz := range []int{16384, 70000} {
+			for _, sz := range []int{16384, 70000, 1048577} {
+				if sz > 1000000 && (ps != 1 || bs != 1) {
+					continue // one configuration is enough for the value beyond 1 MiB
+				}
 				item++
 				if !c.Mine(item) || c.Expired() {
 					continue
